@@ -95,6 +95,39 @@ mod thinblock {
     }
 }
 
+mod thincap {
+    //! Capped + burnable with the cap adjustable afterwards (`set_cap` is documented for exactly that: a cap lowered
+    //! below the supply "prevents any further minting until the total supply falls below the new cap"); the
+    //! fungible-capped example sets the cap in its constructor only and exposes no burn.
+    use soroban_sdk::{contract, contractimpl, Address, Env, MuxedAddress, String};
+    use stellar_tokens::fungible::{burnable::FungibleBurnable, capped::{check_cap, set_cap}, Base, FungibleToken};
+
+    #[contract]
+    pub struct CapBurnToken;
+
+    #[contractimpl]
+    impl CapBurnToken {
+        pub fn __constructor(e: &Env, cap: i128) {
+            set_cap(e, cap);
+        }
+        pub fn mint(e: &Env, to: Address, amount: i128) {
+            check_cap(e, amount);
+            Base::mint(e, &to, amount);
+        }
+        pub fn set_cap(e: &Env, cap: i128) {
+            set_cap(e, cap);
+        }
+    }
+
+    #[contractimpl(contracttrait)]
+    impl FungibleToken for CapBurnToken {
+        type ContractType = Base;
+    }
+
+    #[contractimpl(contracttrait)]
+    impl FungibleBurnable for CapBurnToken {}
+}
+
 const NOW0: u32 = 10;
 const MAX_TTL: u32 = 20;
 const BAD: i64 = -999_999;
@@ -107,6 +140,7 @@ enum Fl {
     BlockThin,
     Pausable,
     Capped,
+    CapThin,
 }
 
 struct Sys {
@@ -130,6 +164,7 @@ macro_rules! token_call {
             Fl::BlockThin => { let $cl = thinblock::BlockBurnTokenClient::new(&$self.e, &$self.c); $body }
             Fl::Pausable => { let $cl = pausable::ExampleContractClient::new(&$self.e, &$self.c); $body }
             Fl::Capped => { let $cl = capped::ExampleContractClient::new(&$self.e, &$self.c); $body }
+            Fl::CapThin => { let $cl = thincap::CapBurnTokenClient::new(&$self.e, &$self.c); $body }
         }
     };
 }
@@ -151,6 +186,7 @@ impl Sys {
             "blocklist" if thin => (Fl::BlockThin, e.register(thinblock::BlockBurnToken, (a.clone(), m.clone(), 2 * scale))),
             "blocklist" => (Fl::Block, e.register(blocklist::ExampleContract, (nm.clone(), nm.clone(), a.clone(), m.clone(), 2 * scale))),
             "pausable" => (Fl::Pausable, e.register(pausable::ExampleContract, (nm.clone(), nm.clone(), a.clone(), 0i128))),
+            "capped" if thin => (Fl::CapThin, e.register(thincap::CapBurnToken, ((cap as i128) * scale,))),
             "capped" => (Fl::Capped, e.register(capped::ExampleContract, ((cap as i128) * scale,))),
             f => panic!("flavour {f}"),
         };
@@ -258,6 +294,7 @@ impl Sys {
                     Fl::Allow => res_of(&allowlist::ExampleContractClient::new(e, &c).try_burn(&f, &amt)),
                     Fl::Pausable => res_of(&pausable::ExampleContractClient::new(e, &c).try_burn(&f, &amt)),
                     Fl::BlockThin => res_of(&thinblock::BlockBurnTokenClient::new(e, &c).try_burn(&f, &amt)),
+                    Fl::CapThin => res_of(&thincap::CapBurnTokenClient::new(e, &c).try_burn(&f, &amt)),
                     _ => return None,
                 }
             }
@@ -269,6 +306,7 @@ impl Sys {
                     Fl::Allow => res_of(&allowlist::ExampleContractClient::new(e, &c).try_burn_from(&sp, &f, &amt)),
                     Fl::Pausable => res_of(&pausable::ExampleContractClient::new(e, &c).try_burn_from(&sp, &f, &amt)),
                     Fl::BlockThin => res_of(&thinblock::BlockBurnTokenClient::new(e, &c).try_burn_from(&sp, &f, &amt)),
+                    Fl::CapThin => res_of(&thincap::CapBurnTokenClient::new(e, &c).try_burn_from(&sp, &f, &amt)),
                     _ => return None,
                 }
             }
@@ -279,8 +317,16 @@ impl Sys {
                     Fl::Base => res_of(&thin::BaseTokenClient::new(e, &c).try_mint(&t, &amt)),
                     Fl::Pausable => res_of(&pausable::ExampleContractClient::new(e, &c).try_mint(&t, &amt)),
                     Fl::Capped => res_of(&capped::ExampleContractClient::new(e, &c).try_mint(&t, &amt)),
+                    Fl::CapThin => res_of(&thincap::CapBurnTokenClient::new(e, &c).try_mint(&t, &amt)),
                     _ => return None,
                 }
+            }
+            "set_cap" => {
+                if self.fl != Fl::CapThin {
+                    return None;
+                }
+                no_auth(e);
+                res_of(&thincap::CapBurnTokenClient::new(e, &c).try_set_cap(&amt))
             }
             "pause" | "unpause" => {
                 if self.fl != Fl::Pausable {
@@ -328,7 +374,7 @@ impl Sys {
     }
 }
 
-const FLAVOURS: [&str; 6] = ["base", "allowlist", "blocklist", "pausable", "capped", "blockthin"];
+const FLAVOURS: [&str; 7] = ["base", "allowlist", "blocklist", "pausable", "capped", "blockthin", "capthin"];
 
 fn main() {
     match cli() {
@@ -355,7 +401,11 @@ fn main() {
             let accts = ["a", "b", "c", "d"];
             for run in 0..runs {
                 let fl = FLAVOURS[run % FLAVOURS.len()];
-                let (fl, thin) = if fl == "blockthin" { ("blocklist", true) } else { (fl, false) };
+                let (fl, thin) = match fl {
+                    "blockthin" => ("blocklist", true),
+                    "capthin" => ("capped", true),
+                    f => (f, false),
+                };
                 let regime = if (run / FLAVOURS.len()) % 3 == 2 { "O" } else { "S" };
                 let cap = if regime == "O" { 6 } else { *pick(&mut r, &[3i64, 5, 9]) };
                 let mut sys = Sys::new(fl, regime, &accts, cap, thin);
@@ -385,6 +435,7 @@ fn main() {
                         Fl::BlockThin => &["list", "unlist", "transfer", "transfer", "transfer_from", "approve", "approve", "burn", "burn", "burn_from", "burn_from", "advance"],
                         Fl::Pausable => &["mint", "mint", "transfer", "transfer", "transfer_from", "approve", "burn", "burn_from", "pause", "unpause", "advance"],
                         Fl::Capped => &["mint", "mint", "mint", "transfer", "transfer", "transfer_from", "approve", "advance"],
+                        Fl::CapThin => &["mint", "mint", "mint", "mint", "set_cap", "set_cap", "transfer", "transfer_from", "approve", "burn", "burn", "burn_from", "advance"],
                     };
                     // regime O: stay on the lattice (7 units is the largest multiple of 2^124 below i128::MAX)
                     let amt = if regime == "O" { amt.min(7) } else { amt };
@@ -429,6 +480,13 @@ fn main() {
                         "burn_from" => {
                             if good { auth.push(sp.into()); }
                             json!({"op": "burn_from", "from": from, "to": "none", "sp": sp, "amt": amt, "until": 0, "auth": auth, "k": k})
+                        }
+                        "set_cap" => {
+                            // around the current supply (below it: minting must stay shut until enough is burned)
+                            let sup: i64 = bals.values().sum();
+                            let c = match r.gen_range(0..8) { 0 => -1, 1 => 0, 2 => sup - 1, 3 => sup - 2, 4 => sup, 5 => sup + 1, 6 => sup + 3, _ => *pick(&mut r, &amts) };
+                            let c = if regime == "O" { c.min(8) } else { c };
+                            json!({"op": "set_cap", "from": "none", "to": "none", "sp": "none", "amt": c, "until": 0, "auth": [], "k": k})
                         }
                         "pause" | "unpause" => {
                             let caller = if good { "a" } else { *pick(&mut r, &accts) };
